@@ -89,6 +89,13 @@ def rights():
             ("d", A("A_1", v)), ("e", A("A", w)), ("f", R("A")),
             ("g", R("A_1"))))))
     out.append(("R0", "-", "y", ("m", (("a", "y"), ("z", "y")))))
+    # the scalar anchor and all its aliases live inside a container which is
+    # itself anchored (and aliased elsewhere)
+    for n in ("A", "B"):
+        for v in ("x", "y"):
+            out.append(("R7", n, v, ("m", (
+                ("d", ("&", "D", ("m", (("t", A(n, v)), ("g", R(n)))))),
+                ("e", ("*", "D"))))))
     for v in (True, 1, 1.0):
         out.append(("R1", "A", repr(v), ("m", (("d", A("A", v)),
                                                ("e", R("A"))))))
